@@ -9,6 +9,7 @@
 //	import "net"   -> net  "verif/shim/vnet"   (Dial/DialTimeout consult the harness; all else aliases net)
 //	import "sync"  -> sync "verif/shim/vsync"  (locks are scheduling points)
 //	import "math/rand" -> rand "verif/shim/vrand" in cmd/rdpgw/web (round-robin pick becomes a harness input)
+//	import "time"  -> time "verif/shim/vtime" in cmd/rdpgw/security (token expiry follows the harness clock)
 //	go f(a, b)     -> { vF, v0, v1 := f, a, b; vsched.Go("f", func() { vF(v0, v1) }) }
 //	ch <- v        -> vsched.ChanSend(ch, v)
 //	<-ch           -> vsched.ChanRecv(ch)
@@ -31,13 +32,14 @@ import (
 	"strings"
 )
 
-type rules struct{ net, sync, gostmt, chans, rand bool }
+type rules struct{ net, sync, gostmt, chans, rand, time bool }
 
 var pkgs = map[string]rules{
 	"cmd/rdpgw/protocol":  {net: true, sync: true, gostmt: true, chans: true},
 	"cmd/rdpgw/kdcproxy":  {net: true, sync: true, gostmt: true, chans: true},
 	"cmd/rdpgw/transport": {sync: true, gostmt: true, chans: true},
 	"cmd/rdpgw/web":       {rand: true},
+	"cmd/rdpgw/security":  {time: true},
 }
 
 func die(format string, a ...any) {
@@ -122,6 +124,14 @@ func rewrite(name string, src []byte, r rules) ([]byte, bool) {
 						alias = is.Name.Name
 					}
 					ed = &edit{off(is.Pos()), off(is.End()), alias + ` "verif/shim/vnet"`}
+				}
+			case `"time"`:
+				if r.time {
+					alias := "time"
+					if is.Name != nil {
+						alias = is.Name.Name
+					}
+					ed = &edit{off(is.Pos()), off(is.End()), alias + ` "verif/shim/vtime"`}
 				}
 			case `"math/rand"`:
 				if r.rand {
